@@ -46,6 +46,8 @@ func c06Docs() []any {
 		nil,
 		num("1.50"),
 		map[string]any{"a": withTail(num("1.0"), num("1"), num("1e0")), "b": "x", "c": sharedObj},
+		map[string]any{"a": withTail(nil, num("1"), num("2"), nil, num("3")), "b": withTail(nil, "x", nil), "c": map[string]any{"z": nil, "y": withTail(nil, num("1"))}},
+		map[string]any{"a": withTail(map[string]any{"a": num("1"), "k": "x"}, map[string]any{"a": num("2"), "k": "y"}, map[string]any{"a": num("3"), "k": "z"}), "b": withTail("p", "q"), "c": sharedObj},
 	}
 }
 
@@ -58,6 +60,9 @@ var c06Exprs = []string{
 	"sort_by(a, &i)[*].i", "sort_by(a, &a)[*].i", "a[?k == 'a'][*].i", "group_by(a, &k).a[*].i", "a[::2]", "a[1::2][*].i", "to_string(a)", "to_string(@)", "a == a", "[a] == [a]", "contains(a, `1`)", "sum(a[?@ != null])", "avg(a)",
 	"[0]", "[1]", "[-1]", "[255]", "[0] || 'none'", "length([1])", "[0][0]", "[1][0]", "[0].a", "[2]", "[0] == [1]", "`1`", "'const'", "`[1,2]`[0]", "abs(`-1`)", "[0:1]", "@", "type(@)", "length(@)",
 	"sort_by(a, b)", "map(a, @)", "a[::0]", "abs()", "nosuch(a)", "a[", "max_by(a, a)",
+	"a[*].a | @", "a[*].k | {n: @}", "a[*].a | [@, @]", "a[*] | to_array(@)", "a[*].i | [@][0]", "b[*] | @", "a[?a].k | {n: @, c: length(@)}", "a[].k | @", "a[*].[k] | @", "map(&k, a) | [@]",
+	"let $l = b in a[?let $s = `10` in a * $s > `5`].k", "let $l = c in a[*].[let $s = `1` in [$s, $l]]", "let $x = a in let $y = `1`, $z = 'k' in [$x, $y, $z]",
+	"reverse(sort_by(a, &a))", "reverse(sort_by(a, &k))", "reverse(sort(a))", "reverse(map(&@, a))", "[reverse(sort_by(a, &a))[*].k, a[*].k]", "[a[:3], a[1:]]", "[a[1:], a]", "[b[:1], b]",
 	"b[*][0]", "b[*][1:]", "from_items(b).k", "flatten", "a[*][]", "[a, a][]", "[a, a][*][1:]", "{x: a}.x[1:]", "merge(c).a", "[c, d][*].a", "sort(a)[1:]", "reverse(a)[1:]", "reverse(sort(a))", "sort(reverse(a))",
 }
 
